@@ -206,6 +206,20 @@ TIME_BUDGET = int(__import__('os').environ.get('VERIF_TIME_BUDGET', '90'))
 STEP_BUDGET = int(__import__('os').environ.get('VERIF_STEP_BUDGET', '400000'))
 
 
+def _endless_iterable(e) -> bool:
+    if not isinstance(e, ast.Call):
+        return False
+    try:
+        fn = ast.unparse(e.func)
+    except Exception:
+        return False
+    if fn in ('itertools.count', 'count'):
+        return True
+    if fn in ('itertools.repeat', 'repeat') and len(e.args) == 1 and not e.keywords:
+        return True
+    return False
+
+
 class Flow:
     def __init__(self, client: Client):
         self.c = client
@@ -369,6 +383,8 @@ class Flow:
                 for sb in o.brk:
                     out.fall |= set(c.loop_leave(st, sb))
             left = set()
+            if _endless_iterable(st.iter):
+                exhausted = set()     # library fact: itertools.count() / cycle / repeat(x) never run out: the loop ends by break / return / raise only
             for sb in exhausted:
                 left |= set(c.loop_leave(st, sb))
             if st.orelse:
